@@ -19,38 +19,84 @@ import (
 
 // Obligation is one proof goal: facts => goal.
 type Obligation struct {
-	Name   string
-	Kind   string
-	Props  []string
-	Facts  []smt.T
-	Goal   smt.T
-	Decls  string
-	Cover  bool // must be SAT (anti-vacuity)
-	Source string
+	Name    string // stable, line free: func|kind|label|path
+	Func    string
+	Kind    string
+	Label   string
+	Props   []string
+	Facts   []smt.T
+	Goal    smt.T
+	Cover   bool // must be SAT (anti-vacuity)
+	Source  string
+	Path    string
+	PathSig string
+	Pos     string // file:line, informational only
+	Extra   []string
+	Watch   []WatchTerm // terms whose model values are asked for when the obligation is refuted
+}
+
+// WatchTerm is a named term evaluated in a counter-model.
+type WatchTerm struct {
+	Name string
+	T    smt.T
 }
 
 type Options struct {
-	Safety   bool // emit bounds / nil / underflow obligations
-	Strict   bool // uncontracted calls are errors
+	Safety   bool // emit bounds / nil / overflow obligations
 	MaxPaths int
 }
 
 type Exec struct {
-	P        *load.Program
-	fn       *ssa.Function
-	ctx      *smt.Ctx
-	contract *gcl.Contract
-	opts     Options
-	loops    map[*ssa.BasicBlock]*load.LoopInfo
-	structs  map[string]bool
-	errGlobs map[string]smt.T
-	Obls     []*Obligation
-	Diag     []string
-	paths    int
-	heapSort map[string]string
-	entry    *State
-	params   map[string]binding // contract-visible names at entry
-	obSeq    map[string]int
+	P             *load.Program
+	fn            *ssa.Function
+	ctx           *smt.Ctx
+	contract      *gcl.Contract
+	opts          Options
+	loops         map[*ssa.BasicBlock]*load.LoopInfo
+	structs       map[string]bool
+	errGlobs      map[string]smt.T
+	Obls          []*Obligation
+	Diag          []string
+	Fatal         []string // reasons why the function is outside the supported subset: nothing about it counts as proved
+	paths         int
+	heapSort      map[string]string
+	entry         *State
+	params        map[string]binding // contract-visible names at entry
+	obSeq         map[string]int
+	genCtr        int
+	axioms        map[string]string // prelude axioms keyed by name, added when a vocabulary is used
+	callOrd       map[ssa.Instruction]map[string]int
+	closLoop      map[*ssa.Function]map[*ssa.BasicBlock]*load.LoopInfo
+	safetyOn      bool
+	watch         []WatchTerm
+	addrTaken     bool
+	wrapOK        bool
+	typeTags      map[string]bool
+	calls         []ssa.CallInstruction
+	inlineDepth   int
+	qdepth        int
+	userAxioms    []smt.T
+	axiomsLoaded  bool
+	lemma         *gcl.Lemma
+	trustedUsed   map[string]bool
+	heapHoldsRefs map[string]bool
+}
+
+// TrustedUsed lists the assumed (trusted) contracts and library models this function's obligations relied on.
+func (x *Exec) TrustedUsed() []string {
+	var out []string
+	for k := range x.trustedUsed {
+		out = append(out, k)
+	}
+	sort.Strings(out)
+	return out
+}
+
+func (x *Exec) noteTrusted(s string) {
+	if x.trustedUsed == nil {
+		x.trustedUsed = map[string]bool{}
+	}
+	x.trustedUsed[s] = true
 }
 
 type binding struct {
@@ -60,10 +106,10 @@ type binding struct {
 
 // addr describes where a pointer SSA value points to.
 type addr struct {
-	kind string // "cell", "field", "elem", "ptr", "global"
+	kind string // "cell", "field", "elem", "ptr", "global", "agg"
 	cell *ssa.Alloc
 	heap string
-	base smt.T // object ref (field/ptr) or array ref (elem)
+	base smt.T // object ref (field/ptr) or array ref (elem); for agg: the (interior) reference of the aggregate
 	idx  smt.T // element index (elem)
 	typ  types.Type
 }
@@ -71,7 +117,6 @@ type addr struct {
 type deferred struct {
 	call *ssa.Defer
 	args []smt.T
-	fnv  ssa.Value
 	fr   *frame
 }
 
@@ -86,16 +131,18 @@ type frame struct {
 }
 
 type State struct {
-	cells  map[*ssa.Alloc]smt.T
-	heaps  map[string]smt.T
-	facts  []smt.T
-	defers []deferred
-	trace  []string
-	refs   []smt.T
+	cells     map[*ssa.Alloc]smt.T
+	heaps     map[string]smt.T
+	gen       int
+	facts     []smt.T
+	defers    []deferred
+	trace     []string
+	refs      []smt.T
+	refsMaybe []maybeRef
 }
 
 func (s *State) clone() *State {
-	n := &State{cells: make(map[*ssa.Alloc]smt.T, len(s.cells)), heaps: make(map[string]smt.T, len(s.heaps))}
+	n := &State{cells: make(map[*ssa.Alloc]smt.T, len(s.cells)), heaps: make(map[string]smt.T, len(s.heaps)), gen: s.gen}
 	for k, v := range s.cells {
 		n.cells[k] = v
 	}
@@ -106,6 +153,7 @@ func (s *State) clone() *State {
 	n.defers = append([]deferred(nil), s.defers...)
 	n.trace = append([]string(nil), s.trace...)
 	n.refs = append([]smt.T(nil), s.refs...)
+	n.refsMaybe = append([]maybeRef(nil), s.refsMaybe...)
 	return n
 }
 
@@ -119,38 +167,93 @@ func (s *State) assume(fs ...smt.T) {
 
 // outcome of running a function body: final state and result terms.
 type outcome struct {
-	st      *State
-	results []smt.T
+	st       *State
+	results  []smt.T
 	panicked bool
 }
 
 func New(p *load.Program, fn *ssa.Function, c *gcl.Contract, opts Options) *Exec {
 	if opts.MaxPaths == 0 {
-		opts.MaxPaths = 2000
+		opts.MaxPaths = 3000
 	}
-	return &Exec{P: p, fn: fn, ctx: smt.NewCtx(), contract: c, opts: opts, structs: map[string]bool{},
-		errGlobs: map[string]smt.T{}, heapSort: map[string]string{}, obSeq: map[string]int{}}
+	x := &Exec{P: p, fn: fn, ctx: smt.NewCtx(), contract: c, opts: opts, structs: map[string]bool{},
+		errGlobs: map[string]smt.T{}, heapSort: map[string]string{}, obSeq: map[string]int{}, axioms: map[string]string{},
+		callOrd: map[ssa.Instruction]map[string]int{}, closLoop: map[*ssa.Function]map[*ssa.BasicBlock]*load.LoopInfo{}, typeTags: map[string]bool{}}
+	if c != nil && c.WrapOK {
+		x.wrapOK = true
+	}
+	x.safetyOn = opts.Safety
+	if c != nil && c.Safety == "on" {
+		x.safetyOn = true
+	}
+	if c != nil && c.Safety == "off" {
+		x.safetyOn = false
+	}
+	return x
 }
 
-func (x *Exec) diag(format string, a ...any) { x.Diag = append(x.Diag, fmt.Sprintf(format, a...)) }
+func (x *Exec) diag(format string, a ...any) {
+	m := fmt.Sprintf(format, a...)
+	for _, d := range x.Diag {
+		if d == m {
+			return
+		}
+	}
+	x.Diag = append(x.Diag, m)
+}
 
+func (x *Exec) fatal(format string, a ...any) {
+	m := fmt.Sprintf(format, a...)
+	for _, d := range x.Fatal {
+		if d == m {
+			return
+		}
+	}
+	x.Fatal = append(x.Fatal, m)
+}
+
+// heap returns the current version of a heap in st, creating the epoch's initial version lazily.
 func (x *Exec) heap(st *State, name, sort string) smt.T {
 	if h, ok := st.heaps[name]; ok {
 		return h
 	}
-	x.heapSort[name] = sort
-	h := x.ctx.Const(name+"@0", sort)
+	x.regHeap(name, sort)
+	h := x.ctx.Const(fmt.Sprintf("%s@%d", name, st.gen), sort)
 	st.heaps[name] = h
+	if st.gen == 0 && x.fn != nil {
+		x.entryHeapAxiom(name, sort, h)
+	}
 	return h
+}
+
+// havocAll forgets everything about every heap (unknown side effects).
+func (x *Exec) havocAll(st *State) {
+	x.genCtr++
+	st.gen = x.genCtr
+	st.heaps = map[string]smt.T{}
+}
+
+func (x *Exec) havocHeap(st *State, name string) {
+	sort, ok := x.heapSort[name]
+	if !ok {
+		return
+	}
+	st.heaps[name] = x.ctx.Fresh(name, sort)
 }
 
 // Run verifies the function against its contract and returns the obligations.
 func (x *Exec) Run() {
+	defer func() {
+		if r := recover(); r != nil {
+			x.fatal("internal error while executing %s: %v", x.fn.Name(), r)
+		}
+	}()
 	fn := x.fn
 	if len(fn.Blocks) == 0 {
-		x.diag("no body")
+		x.fatal("no body")
 		return
 	}
+	x.loadAxioms()
 	x.loops = load.Loops(fn)
 	st := &State{cells: map[*ssa.Alloc]smt.T{}, heaps: map[string]smt.T{}}
 	fr := x.newFrame(fn, nil, nil)
@@ -160,6 +263,15 @@ func (x *Exec) Run() {
 		fr.regs[p] = v
 		st.assume(x.typeFacts(v, p.Type())...)
 		x.params[p.Name()] = binding{v, p.Type()}
+		x.watchParam(p.Name(), v, p.Type())
+		switch p.Type().Underlying().(type) {
+		case *types.Pointer, *types.Interface, *types.Map, *types.Chan, *types.Signature:
+			st.assume(x.notFresh(v))
+		case *types.Slice:
+			st.assume(x.notFresh(sArr(v)))
+		case *types.Struct:
+			x.structNotFresh(st, p.Type(), v)
+		}
 	}
 	if recv := fn.Signature.Recv(); recv != nil && len(fn.Params) > 0 {
 		if _, ok := recv.Type().(*types.Pointer); ok {
@@ -168,24 +280,97 @@ func (x *Exec) Run() {
 	}
 	x.entry = st.clone()
 	if x.contract != nil {
-		for _, r := range x.contract.Requires {
+		for _, r := range x.allRequires() {
 			t, err := x.evalClause(r.E, st, x.entry, fr, nil)
 			if err != nil {
-				x.diag("requires %q: %v", r.Src, err)
+				x.fatal("requires %q: %v", r.Src, err)
 				continue
 			}
 			st.assume(t)
 		}
 		// cover: preconditions satisfiable
-		x.emit(&Obligation{Kind: "cover", Name: "pre-satisfiable", Facts: st.facts, Goal: smt.False, Cover: true})
+		x.emit(&Obligation{Kind: "cover", Label: "pre-satisfiable", Facts: st.facts, Goal: smt.False, Cover: true, Source: "requires clauses are jointly satisfiable"}, st)
 		x.entry = st.clone()
 	}
+	x.checkBindings()
 	outs := x.execBlock(fr, st, fn.Blocks[0], nil, 0)
+	nret := 0
 	for _, o := range outs {
 		if o.panicked {
 			continue
 		}
+		nret++
 		x.checkPost(fr, o)
+	}
+	if nret == 0 && len(x.Fatal) == 0 {
+		x.diag("no returning path")
+	}
+}
+
+// allRequires / allEnsures merge the function's own clauses with those of the interface contracts it implements.
+func (x *Exec) allRequires() []gcl.Clause {
+	rs := append([]gcl.Clause(nil), x.contract.Requires...)
+	for _, k := range x.contract.Implements {
+		if ic := x.lookupIfaceContract(k); ic != nil {
+			rs = append(rs, ic.Requires...)
+		} else {
+			x.fatal("implements %s: no such interface contract", k)
+		}
+	}
+	return rs
+}
+
+func (x *Exec) allEnsures() []gcl.Clause {
+	es := append([]gcl.Clause(nil), x.contract.Ensures...)
+	es = append(es, x.contract.Exits...)
+	for _, k := range x.contract.Implements {
+		if ic := x.lookupIfaceContract(k); ic != nil {
+			for _, e := range ic.Ensures {
+				e2 := e
+				if e2.Label == "" {
+					e2.Label = fmt.Sprintf("refine-%s-l%d", shortName(k), len(es))
+				} else {
+					e2.Label = "refine-" + e2.Label
+				}
+				es = append(es, e2)
+			}
+		}
+	}
+	return es
+}
+
+func (x *Exec) lookupIfaceContract(k string) *gcl.Contract {
+	if c, ok := x.P.Contracts[k]; ok {
+		return c
+	}
+	for key, c := range x.P.Contracts {
+		if c.Kind == "iface" && strings.HasSuffix(key, "/"+k) || strings.HasSuffix(key, "."+k) && c.Kind == "iface" {
+			return c
+		}
+	}
+	return nil
+}
+
+// checkBindings reports loop / call clauses that do not bind to anything in the current body.
+func (x *Exec) checkBindings() {
+	if x.contract == nil {
+		return
+	}
+	for n := range x.contract.Loops {
+		found := false
+		for _, li := range x.loops {
+			if li.Ordinal == n {
+				found = true
+			}
+		}
+		if !found {
+			x.fatal("contract names loop %d but the function has only %d loops", n, len(x.loops))
+		}
+	}
+	for _, ca := range x.contract.CallAsserts {
+		if n := x.countCalls(ca.Callee); n == 0 || ca.N >= n {
+			x.fatal("call clause %d of %s does not bind (function has %d such calls)", ca.N, ca.Callee, n)
+		}
 	}
 }
 
@@ -200,12 +385,24 @@ func (x *Exec) newFrame(fn *ssa.Function, parent *frame, mc *ssa.MakeClosure) *f
 	return fr
 }
 
-func (x *Exec) emit(o *Obligation) {
+func (x *Exec) FuncName() string {
+	if x.fn == nil {
+		return "lemma." + x.lemma.Name
+	}
 	fnName := load.FuncKey(x.fn)
 	if i := strings.LastIndex(fnName, "/"); i >= 0 {
 		fnName = fnName[i+1:]
 	}
-	base := fmt.Sprintf("%s|%s|%s", fnName, o.Kind, o.Name)
+	return fnName
+}
+
+func (x *Exec) emit(o *Obligation, st *State) {
+	o.Func = x.FuncName()
+	if st != nil {
+		o.PathSig = pathSig(st.trace)
+		o.Path = strings.Join(st.trace, " ; ")
+	}
+	base := fmt.Sprintf("%s|%s|%s|%s", o.Func, o.Kind, o.Label, o.PathSig)
 	x.obSeq[base]++
 	if x.obSeq[base] > 1 {
 		base = fmt.Sprintf("%s#%d", base, x.obSeq[base])
@@ -214,7 +411,21 @@ func (x *Exec) emit(o *Obligation) {
 	if x.contract != nil {
 		o.Props = x.contract.Props
 	}
+	// a label of the form "C11,C02:name" restricts the obligation to these properties
+	if i := strings.Index(o.Label, ":"); i > 0 {
+		ps := strings.Split(o.Label[:i], ",")
+		ok := true
+		for _, p := range ps {
+			if len(p) < 3 || p[0] != 'C' {
+				ok = false
+			}
+		}
+		if ok {
+			o.Props = ps
+		}
+	}
 	o.Facts = append([]smt.T(nil), o.Facts...)
+	o.Watch = x.watch
 	x.Obls = append(x.Obls, o)
 }
 
@@ -227,39 +438,86 @@ func (x *Exec) checkPost(fr *frame, o outcome) {
 	if x.contract == nil {
 		return
 	}
-	for i, e := range x.contract.Ensures {
+	x.emit(&Obligation{Kind: "cover", Label: "return-reachable", Facts: o.st.facts, Goal: smt.False, Cover: true, Source: "this return path is reachable"}, o.st)
+	for i, e := range x.allEnsures() {
 		t, err := x.evalClause(e.E, o.st, x.entry, fr, o.results)
 		if err != nil {
-			x.diag("ensures %q: %v", e.Src, err)
+			x.fatal("ensures %q: %v", e.Src, err)
 			continue
 		}
 		label := e.Label
 		if label == "" {
 			label = fmt.Sprintf("ensures%d", i)
 		}
-		x.emit(&Obligation{Kind: "post", Name: label + "|" + pathSig(o.st.trace), Facts: o.st.facts, Goal: t, Source: e.Src + "  @ path " + strings.Join(o.st.trace, " ; ")})
+		x.emit(&Obligation{Kind: "post", Label: label, Facts: o.st.facts, Goal: t, Source: e.Src}, o.st)
 	}
+	for _, name := range x.contract.Fresh {
+		t, err := x.evalClauseTyped(gcl.Ident{Name: name}, o.st, x.entry, fr, o.results)
+		if err != nil {
+			x.fatal("fresh %s: %v", name, err)
+			continue
+		}
+		r := t
+		if r.Sort == SliceSort {
+			r = sArr(r)
+		}
+		x.emit(&Obligation{Kind: "post", Label: "fresh-" + name, Facts: o.st.facts, Goal: smt.Or(smt.Eq(r, smt.IntLit(0)), smt.Not(x.notFresh(r))), Source: "fresh " + name}, o.st)
+	}
+	x.checkFrame(fr, o)
+}
+
+func (x *Exec) evalClauseTyped(e gcl.Expr, st, old *State, fr *frame, results []smt.T) (smt.T, error) {
+	return x.evalClause(e, st, old, fr, results)
 }
 
 // ---------- block execution
 
+func (x *Exec) loopsOf(fr *frame) map[*ssa.BasicBlock]*load.LoopInfo {
+	if fr.parent == nil {
+		return x.loops
+	}
+	if l, ok := x.closLoop[fr.fn]; ok {
+		return l
+	}
+	l := load.Loops(fr.fn)
+	x.closLoop[fr.fn] = l
+	return l
+}
+
 func (x *Exec) execBlock(fr *frame, st *State, b *ssa.BasicBlock, pred *ssa.BasicBlock, depth int) []outcome {
-	if fr.parent == nil { // loop cutting only in the function under verification (inlined closures with loops: unsupported)
-		if li, ok := x.loops[b]; ok {
+	if li, ok := x.loopsOf(fr)[b]; ok {
+		if fr.parent != nil {
+			// loop inside an inlined closure: cut without invariant (havoc what it assigns), sound but weak
 			fromBack := pred != nil && li.Body[pred]
-			lc := x.loopContract(li)
 			if fromBack {
-				x.assertInv(fr, st, li, lc, "inv-step")
 				return nil
 			}
-			x.assertInv(fr, st, li, lc, "inv-init")
 			st = x.havocLoop(fr, st, li)
-			x.assumeInv(fr, st, li, lc)
-			st.trace = append(st.trace, fmt.Sprintf("loop%d", li.Ordinal))
+			st.trace = append(st.trace, fmt.Sprintf("%s.loop%d", fr.fn.Name(), li.Ordinal))
+			return x.execInstrs(fr, st, b, 0, pred, depth)
 		}
-	} else if _, ok := load.Loops(fr.fn)[b]; ok && pred != nil && b.Dominates(pred) {
-		x.diag("loop inside inlined closure %s: unsupported", fr.fn.Name())
-		return nil
+		fromBack := pred != nil && li.Body[pred]
+		lc := x.loopContract(li)
+		if fromBack {
+			x.assertInv(fr, st, li, lc, "inv-step")
+			x.frameObligations(st, fmt.Sprintf("loop%d-step", li.Ordinal))
+			return nil
+		}
+		x.assertInv(fr, st, li, lc, "inv-init")
+		before := st
+		st = x.havocLoop(fr, st, li)
+		if st.gen == before.gen {
+			var changed []string
+			for h, v := range st.heaps {
+				if bv, ok := before.heaps[h]; !ok || bv.S != v.S {
+					changed = append(changed, h)
+				}
+			}
+			sort.Strings(changed)
+			x.assumeFrame(st, changed)
+		}
+		x.assumeInv(fr, st, li, lc)
+		st.trace = append(st.trace, fmt.Sprintf("loop%d", li.Ordinal))
 	}
 	return x.execInstrs(fr, st, b, 0, pred, depth)
 }
@@ -278,10 +536,14 @@ func (x *Exec) assertInv(fr *frame, st *State, li *load.LoopInfo, lc *gcl.Loop, 
 	for i, inv := range lc.Invariants {
 		t, err := x.evalClause(inv.E, st, x.entry, fr, nil)
 		if err != nil {
-			x.diag("loop %d invariant %q: %v", li.Ordinal, inv.Src, err)
+			x.fatal("loop %d invariant %q: %v", li.Ordinal, inv.Src, err)
 			continue
 		}
-		x.emit(&Obligation{Kind: kind, Name: fmt.Sprintf("loop%d.inv%d|%s", li.Ordinal, i, pathSig(st.trace)), Facts: st.facts, Goal: t, Source: inv.Src})
+		label := inv.Label
+		if label == "" {
+			label = fmt.Sprintf("inv%d", i)
+		}
+		x.emit(&Obligation{Kind: kind, Label: fmt.Sprintf("loop%d.%s", li.Ordinal, label), Facts: st.facts, Goal: t, Source: inv.Src}, st)
 	}
 }
 
@@ -302,107 +564,188 @@ func (x *Exec) havocLoop(fr *frame, st *State, li *load.LoopInfo) *State {
 	st = st.clone()
 	heaps := map[string]bool{}
 	allHeaps := false
+	closureCalls := false
 	for b := range li.Body {
 		for _, in := range b.Instrs {
 			switch in := in.(type) {
 			case *ssa.Store:
 				if a, ok := in.Addr.(*ssa.Alloc); ok && x.isRegCell(a) {
-					v := x.ctx.Fresh("h$"+a.Comment, x.sortOf(deref(a.Type())))
-					st.cells[a] = v
-					st.assume(x.typeFacts(v, deref(a.Type()))...)
+					x.havocCell(st, a)
+				} else if fv, ok := in.Addr.(*ssa.FreeVar); ok {
+					if a := x.cellOfFreeVar(fr, fv); a != nil {
+						x.havocCell(st, a)
+					} else {
+						allHeaps = true
+					}
 				} else {
-					// heap store: figure out heap from the address instruction
-					for _, h := range x.heapsOfAddr(in.Addr) {
+					hs := x.heapsOfAddr(in.Addr)
+					if hs == nil {
+						allHeaps = true
+					}
+					for _, h := range hs {
 						heaps[h] = true
 					}
 				}
+			case *ssa.MapUpdate:
 			case ssa.CallInstruction:
-				if !x.callIsPure(in) {
-					allHeaps = true
+				pure, hs, clos := x.callEffects(fr, in)
+				if clos {
+					closureCalls = true
+				}
+				if !pure {
+					if hs == nil {
+						allHeaps = true
+					}
+					for _, h := range hs {
+						heaps[h] = true
+					}
+				}
+			case *ssa.RunDefers:
+				closureCalls = true
+				allHeaps = true
+			}
+		}
+	}
+	if closureCalls {
+		// any closure of this function may run inside the loop: forget the cells closures capture and write
+		for f := fr; f != nil; f = f.parent {
+			for _, b := range f.fn.Blocks {
+				for _, in := range b.Instrs {
+					if mc, ok := in.(*ssa.MakeClosure); ok {
+						for _, bv := range mc.Bindings {
+							if a, ok := bv.(*ssa.Alloc); ok && x.isRegCell(a) {
+								if _, live := st.cells[a]; live {
+									x.havocCell(st, a)
+								}
+							}
+						}
+					}
 				}
 			}
 		}
 	}
-	for name := range st.heaps {
-		if allHeaps || heaps[name] {
-			st.heaps[name] = x.ctx.Fresh(name, x.heapSort[name])
-		}
-	}
-	for h := range heaps {
-		if _, ok := st.heaps[h]; !ok {
-			// heap not touched yet before the loop: declare lazily on first use (fresh name)
+	if allHeaps {
+		x.havocAll(st)
+	} else {
+		for h := range heaps {
+			x.havocHeap(st, h)
 		}
 	}
 	return st
 }
 
-func (x *Exec) callIsPure(in ssa.CallInstruction) bool {
+func (x *Exec) havocCell(st *State, a *ssa.Alloc) {
+	v := x.ctx.Fresh("h$"+a.Comment, x.sortOf(deref(a.Type())))
+	st.cells[a] = v
+	st.assume(x.typeFacts(v, deref(a.Type()))...)
+}
+
+func (x *Exec) cellOfFreeVar(fr *frame, fv *ssa.FreeVar) *ssa.Alloc {
+	var v ssa.Value = fv
+	for f := fr; f != nil; f = f.parent {
+		if fvv, ok := v.(*ssa.FreeVar); ok {
+			if pv, ok := f.freeVars[fvv]; ok {
+				v = pv
+				continue
+			}
+		}
+		break
+	}
+	if a, ok := v.(*ssa.Alloc); ok && x.isRegCell(a) {
+		return a
+	}
+	return nil
+}
+
+// callEffects over-approximates what a call inside a loop may modify: pure, or the list of heaps (nil = everything).
+func (x *Exec) callEffects(fr *frame, in ssa.CallInstruction) (pure bool, heaps []string, closure bool) {
 	c := in.Common()
 	if b, ok := c.Value.(*ssa.Builtin); ok {
 		switch b.Name() {
-		case "len", "cap", "max", "min", "ssa:deferstack":
-			return true
+		case "len", "cap", "max", "min", "ssa:deferstack", "panic", "print", "println", "close", "delete":
+			return true, nil, false
+		case "append", "copy":
+			if sl, ok := c.Args[0].Type().Underlying().(*types.Slice); ok {
+				h, _ := x.elemHeap(sl.Elem())
+				return false, []string{h}, false
+			}
 		}
-		return false
+		return false, nil, false
+	}
+	if mc := x.findClosure(fr, c.Value); mc != nil {
+		return false, nil, true
 	}
 	if sc := c.StaticCallee(); sc != nil {
-		if ct := x.contractFor(sc); ct != nil && ct.HasMod && len(ct.Modifies) == 0 {
-			return true
+		if x.modelled(sc) || x.knownPure(sc) {
+			return true, nil, false
 		}
-		switch sc.String() {
-		case "errors.Is", "bytes.Compare", "bytes.Equal", "fmt.Errorf", "errors.New", "errors.Join", "fmt.Sprintf", "path/filepath.Join", "path/filepath.Base":
-			return true
+		if ct := x.contractFor(sc); ct != nil && ct.HasMod {
+			hs := x.heapsOfModifies(ct, sc.Signature, false)
+			if hs != nil && len(hs) == 0 {
+				return true, nil, false
+			}
+			return false, hs, false
 		}
+		if sc.Parent() != nil {
+			return false, nil, true
+		}
+		return false, nil, false
 	}
 	if c.IsInvoke() {
-		if ct := x.ifaceContract(c); ct != nil && ct.HasMod && len(ct.Modifies) == 0 {
-			return true
+		if ct := x.ifaceContract(c); ct != nil && ct.HasMod {
+			hs := x.heapsOfModifies(ct, c.Method.Type().(*types.Signature), true)
+			if hs != nil && len(hs) == 0 {
+				return true, nil, false
+			}
+			return false, hs, false
 		}
+		return false, nil, false
 	}
-	return false
+	if ct, _ := x.fnValueContract(fr, c); ct != nil && ct.HasMod {
+		hs := x.heapsOfModifies(ct, c.Signature(), true)
+		if hs != nil && len(hs) == 0 {
+			return true, nil, false
+		}
+		return false, hs, false
+	}
+	return false, nil, true
 }
 
 func (x *Exec) heapsOfAddr(a ssa.Value) []string {
 	switch a := a.(type) {
 	case *ssa.FieldAddr:
 		pt := a.X.Type().Underlying().(*types.Pointer).Elem()
-		h, _ := x.fieldHeap(pt, a.Field)
-		return []string{h}
+		return x.heapsOfType(pt.Underlying().(*types.Struct).Field(a.Field).Type(), func() string { h, _ := x.fieldHeap(pt, a.Field); return h })
 	case *ssa.IndexAddr:
 		switch t := a.X.Type().Underlying().(type) {
 		case *types.Slice:
-			h, _ := x.elemHeap(t.Elem())
-			return []string{h}
+			return x.heapsOfType(t.Elem(), func() string { h, _ := x.elemHeap(t.Elem()); return h })
 		case *types.Pointer:
-			h, _ := x.elemHeap(t.Elem().Underlying().(*types.Array).Elem())
-			return []string{h}
+			et := t.Elem().Underlying().(*types.Array).Elem()
+			return x.heapsOfType(et, func() string { h, _ := x.elemHeap(et); return h })
 		}
-	case *ssa.Alloc:
-		if st, ok := deref(a.Type()).Underlying().(*types.Struct); ok {
-			var hs []string
-			for i := 0; i < st.NumFields(); i++ {
-				h, _ := x.fieldHeap(deref(a.Type()), i)
-				hs = append(hs, h)
-			}
-			return hs
-		}
-		h, _ := x.ptrHeap(deref(a.Type()))
-		return []string{h}
 	default:
 		if p, ok := a.Type().Underlying().(*types.Pointer); ok {
-			if st, ok := p.Elem().Underlying().(*types.Struct); ok {
-				var hs []string
-				for i := 0; i < st.NumFields(); i++ {
-					h, _ := x.fieldHeap(p.Elem(), i)
-					hs = append(hs, h)
-				}
-				return hs
-			}
-			h, _ := x.ptrHeap(p.Elem())
-			return []string{h}
+			return x.heapsOfType(p.Elem(), func() string { h, _ := x.ptrHeap(p.Elem()); return h })
 		}
 	}
 	return nil
+}
+
+// heapsOfType lists the heaps a store of a value of type t writes, given the heap of the scalar case.
+func (x *Exec) heapsOfType(t types.Type, scalar func() string) []string {
+	switch u := t.Underlying().(type) {
+	case *types.Struct:
+		var hs []string
+		for i := 0; i < u.NumFields(); i++ {
+			i := i
+			hs = append(hs, x.heapsOfType(u.Field(i).Type(), func() string { h, _ := x.fieldHeap(t, i); return h })...)
+		}
+		return hs
+	case *types.Array:
+		return x.heapsOfType(u.Elem(), func() string { h, _ := x.elemHeap(u.Elem()); return h })
+	}
+	return []string{scalar()}
 }
 
 func deref(t types.Type) types.Type {
@@ -415,8 +758,10 @@ func deref(t types.Type) types.Type {
 // isRegCell: an Alloc whose address never escapes (only loads/stores through it, debug refs, closure captures).
 func (x *Exec) isRegCell(a *ssa.Alloc) bool {
 	et := deref(a.Type())
-	switch et.Underlying().(type) {
-	case *types.Struct, *types.Array:
+	if isAggregate(et) {
+		return false
+	}
+	if a.Referrers() == nil {
 		return false
 	}
 	for _, r := range *a.Referrers() {
@@ -439,8 +784,8 @@ func (x *Exec) isRegCell(a *ssa.Alloc) bool {
 }
 
 func (x *Exec) execInstrs(fr *frame, st *State, b *ssa.BasicBlock, from int, pred *ssa.BasicBlock, depth int) []outcome {
-	if depth > 4000 {
-		x.diag("execution depth exceeded in %s", fr.fn.Name())
+	if depth > 6000 {
+		x.fatal("execution depth exceeded in %s", fr.fn.Name())
 		return nil
 	}
 	for i := from; i < len(b.Instrs); i++ {
@@ -455,23 +800,25 @@ func (x *Exec) execInstrs(fr *frame, st *State, b *ssa.BasicBlock, from int, pre
 		case *ssa.BinOp:
 			x.doBinOp(fr, st, in)
 		case *ssa.FieldAddr:
-			base := x.val(fr, st, in.X)
-			pt := in.X.Type().Underlying().(*types.Pointer).Elem()
-			h, _ := x.fieldHeap(pt, in.Field)
-			x.safety(st, "nil", "field-of-nil", smt.Not(smt.Eq(base, smt.IntLit(0))), in)
-			fr.addrs[in] = addr{kind: "field", heap: h, base: base, typ: pt.Underlying().(*types.Struct).Field(in.Field).Type()}
+			x.doFieldAddr(fr, st, in)
 		case *ssa.Field:
 			sv := x.val(fr, st, in.X)
 			stt := in.X.Type().Underlying().(*types.Struct)
-			name := "S$" + typeName(in.X.Type())
-			x.structSort(in.X.Type(), stt)
-			fr.regs[in] = smt.App(x.sortOf(stt.Field(in.Field).Type()), smt.Sym(fmt.Sprintf("%s.%d", name, in.Field)), sv)
+			fr.regs[in] = x.structField(in.X.Type(), stt, in.Field, sv)
 		case *ssa.IndexAddr:
 			x.doIndexAddr(fr, st, in)
 		case *ssa.Index:
 			av := x.val(fr, st, in.X)
 			iv := x.val(fr, st, in.Index)
-			fr.regs[in] = smt.Select(av, iv)
+			if isString(in.X.Type()) {
+				f := x.ctx.Fun("strAt", []string{x.ctx.Sort(StrSort), smt.Int}, smt.Int)
+				x.safety(st, "nopanic", "string-index-in-bounds", smt.And(smt.Le(smt.IntLit(0), iv), smt.Lt(iv, x.slen(av))), in)
+				r := smt.App(smt.Int, f, av, iv)
+				st.assume(x.typeFacts(r, in.Type())...)
+				fr.regs[in] = r
+			} else {
+				fr.regs[in] = smt.Select(av, iv)
+			}
 		case *ssa.Extract:
 			tu := fr.tuples[in.Tuple]
 			if in.Index < len(tu) {
@@ -482,10 +829,7 @@ func (x *Exec) execInstrs(fr *frame, st *State, b *ssa.BasicBlock, from int, pre
 		case *ssa.Slice:
 			x.doSlice(fr, st, in)
 		case *ssa.MakeSlice:
-			ln := x.val(fr, st, in.Len)
-			cp := x.val(fr, st, in.Cap)
-			ref := x.freshRef(st, "mkslice")
-			fr.regs[in] = mkSlice(ref, smt.IntLit(0), ln, cp)
+			x.doMakeSlice(fr, st, in)
 		case *ssa.MakeInterface:
 			x.doMakeInterface(fr, st, in)
 		case *ssa.ChangeInterface:
@@ -497,18 +841,29 @@ func (x *Exec) execInstrs(fr *frame, st *State, b *ssa.BasicBlock, from int, pre
 			}
 		case *ssa.Convert:
 			x.doConvert(fr, st, in)
+		case *ssa.MultiConvert:
+			fr.regs[in] = x.freshOf(st, "multiconvert", in.Type())
+		case *ssa.SliceToArrayPointer:
+			fr.regs[in] = x.freshOf(st, "s2a", in.Type())
 		case *ssa.MakeClosure:
 			fr.closures[in] = in
 			fr.regs[in] = x.freshRef(st, "closure")
 		case *ssa.MakeMap, *ssa.MakeChan:
 			fr.regs[in.(ssa.Value)] = x.freshRef(st, "obj")
 		case *ssa.Phi:
+			set := false
 			for k, e := range in.Edges {
 				if b.Preds[k] == pred {
 					fr.regs[in] = x.val(fr, st, e)
+					set = true
 				}
 			}
-		case *ssa.Lookup, *ssa.TypeAssert, *ssa.Select, *ssa.Next, *ssa.Range:
+			if !set {
+				fr.regs[in] = x.freshOf(st, "phi", in.Type())
+			}
+		case *ssa.TypeAssert:
+			x.doTypeAssert(fr, st, in)
+		case *ssa.Lookup, *ssa.Select, *ssa.Next, *ssa.Range:
 			v := in.(ssa.Value)
 			if tu, ok := v.Type().(*types.Tuple); ok {
 				var ts []smt.T
@@ -520,12 +875,17 @@ func (x *Exec) execInstrs(fr *frame, st *State, b *ssa.BasicBlock, from int, pre
 				fr.regs[v] = x.freshOf(st, "opaque", v.Type())
 			}
 			x.diag("%s: %T treated as opaque", fr.fn.Name(), in)
-		case *ssa.MapUpdate, *ssa.Send, *ssa.Go:
-			x.diag("%s: %T ignored", fr.fn.Name(), in)
+		case *ssa.MapUpdate, *ssa.Send:
+			x.diag("%s: %T has no modelled effect (maps/channels are opaque)", fr.fn.Name(), in)
+		case *ssa.Go:
+			x.diag("%s: go statement ignored (sequential semantics)", fr.fn.Name())
 		case *ssa.Defer:
-			d := deferred{call: in, fnv: in.Call.Value, fr: fr}
+			d := deferred{call: in, fr: fr}
 			for _, a := range in.Call.Args {
 				d.args = append(d.args, x.val(fr, st, a))
+			}
+			if in.Call.IsInvoke() {
+				d.args = append([]smt.T{x.val(fr, st, in.Call.Value)}, d.args...)
 			}
 			st.defers = append(st.defers, d)
 		case *ssa.RunDefers:
@@ -549,7 +909,7 @@ func (x *Exec) execInstrs(fr *frame, st *State, b *ssa.BasicBlock, from int, pre
 			var res []outcome
 			x.paths++
 			if x.paths > x.opts.MaxPaths {
-				x.diag("path limit exceeded in %s", x.fn.Name())
+				x.fatal("path limit (%d) exceeded in %s", x.opts.MaxPaths, x.fn.Name())
 				return nil
 			}
 			if c.S != "false" {
@@ -577,19 +937,35 @@ func (x *Exec) execInstrs(fr *frame, st *State, b *ssa.BasicBlock, from int, pre
 			x.safety(st, "nopanic", "explicit-panic", smt.False, in)
 			return []outcome{{st: st, panicked: true}}
 		default:
-			x.diag("%s: unsupported instruction %T", fr.fn.Name(), in)
+			x.fatal("%s: unsupported instruction %T", fr.fn.Name(), in)
+			if v, ok := in.(ssa.Value); ok {
+				fr.regs[v] = x.freshOf(st, "unsupported", v.Type())
+			}
 		}
 	}
 	return nil
 }
 
+// branchText identifies a branch decision by the source text position-free: the condition's expression text.
 func (x *Exec) branchText(in *ssa.If, taken bool) string {
-	pos := x.P.Prog.Fset.Position(in.Cond.Pos())
-	s := fmt.Sprintf("%s:%d", shortFile(pos.Filename), pos.Line)
+	s := x.condText(in)
 	if !taken {
-		return "!" + s
+		return "!(" + s + ")"
 	}
 	return s
+}
+
+func (x *Exec) condText(in *ssa.If) string {
+	pos := in.Cond.Pos()
+	if !pos.IsValid() {
+		pos = in.Pos()
+	}
+	if pos.IsValid() {
+		if s := x.P.ExprTextAt(pos); s != "" {
+			return s
+		}
+	}
+	return in.Cond.Name()
 }
 
 func shortFile(f string) string {
@@ -628,13 +1004,29 @@ func (x *Exec) val(fr *frame, st *State, v ssa.Value) smt.T {
 		}
 	case *ssa.Builtin:
 		return smt.IntLit(0)
-	case *ssa.Alloc:
-		// address of a heap-allocated object that was allocated in this frame
-		if t, ok := fr.regs[v]; ok {
+	case *ssa.FieldAddr, *ssa.IndexAddr:
+		if a, ok := fr.addrs[v]; ok {
+			if a.kind == "agg" {
+				return a.base
+			}
+			// address of a scalar location used as a value
+			x.addrTaken = true
+			var t smt.T
+			if a.kind == "field" {
+				t = smt.App(smt.Int, x.ctx.Fun("addr$"+a.heap, []string{smt.Int}, smt.Int), a.base)
+			} else {
+				t = smt.App(smt.Int, x.ctx.Fun("addr$"+a.heap, []string{smt.Int, smt.Int}, smt.Int), a.base, a.idx)
+			}
+			st.assume(smt.Lt(smt.IntLit(0), t))
+			fr.regs[v] = t
 			return t
 		}
 	}
+	if fr.parent != nil {
+		// a value of an enclosing frame referenced from an inlined closure body cannot occur in SSA (only via FreeVars)
+	}
 	t := x.ctx.Fresh("unk$"+v.Name(), x.sortOf(v.Type()))
+	st.assume(x.typeFacts(t, v.Type())...)
 	fr.regs[v] = t
 	return t
 }
@@ -650,13 +1042,30 @@ func (x *Exec) constant(c *ssa.Const) smt.T {
 	case constant.Int:
 		return smt.IntLitS(c.Value.ExactString())
 	case constant.String:
-		s := constant.StringVal(c.Value)
-		k := x.ctx.Const(fmt.Sprintf("str$%x", sha1.Sum([]byte(s)))[:16], x.ctx.Sort(StrSort))
-		return k
+		return x.strConst(constant.StringVal(c.Value))
 	case constant.Float:
+		if isInteger(t) {
+			if iv := constant.ToInt(c.Value); iv.Kind() == constant.Int {
+				return smt.IntLitS(iv.ExactString())
+			}
+		}
 		return x.ctx.Const("flt$"+c.Value.ExactString(), x.ctx.Sort("Float"))
 	}
 	return x.ctx.Fresh("const", x.sortOf(t))
+}
+
+func (x *Exec) strConst(s string) smt.T {
+	if s == "" {
+		k := x.ctx.Const("str$empty", x.ctx.Sort(StrSort))
+		x.axioms["str$empty"] = "(assert (= (slen str$empty) 0))"
+		x.slen(k)
+		return k
+	}
+	name := fmt.Sprintf("str$%x", sha1.Sum([]byte(s)))[:18]
+	k := x.ctx.Const(name, x.ctx.Sort(StrSort))
+	x.slen(k)
+	x.axioms[name] = fmt.Sprintf("(assert (= (slen %s) %d))", name, len(s))
+	return k
 }
 
 func (x *Exec) zero(t types.Type) smt.T {
@@ -668,23 +1077,22 @@ func (x *Exec) zero(t types.Type) smt.T {
 		case u.Info()&types.IsInteger != 0:
 			return smt.IntLit(0)
 		case u.Info()&types.IsString != 0:
-			return x.ctx.Const("str$empty", x.ctx.Sort(StrSort))
+			return x.strConst("")
 		}
 	case *types.Slice:
 		x.declSlice()
-		return mkSlice(smt.IntLit(0), smt.IntLit(0), smt.IntLit(0), smt.IntLit(0))
+		return nilSlice
 	case *types.Pointer, *types.Interface, *types.Signature, *types.Map, *types.Chan:
 		return smt.IntLit(0)
 	case *types.Struct:
-		sort := x.structSort(t, u)
 		var fs []smt.T
 		for i := 0; i < u.NumFields(); i++ {
 			fs = append(fs, x.zero(u.Field(i).Type()))
 		}
-		if len(fs) == 0 {
-			fs = append(fs, smt.IntLit(0))
-		}
-		return smt.App(sort, smt.Sym("mk$S$"+typeName(t)), fs...)
+		return x.mkStruct(t, u, fs)
+	case *types.Array:
+		srt := x.sortOf(t)
+		return smt.Raw("((as const "+srt+") "+x.zero(u.Elem()).S+")", srt)
 	}
 	return x.ctx.Const("zero$"+typeName(t), x.sortOf(t))
 }
@@ -698,424 +1106,76 @@ func (x *Exec) freshOf(st *State, base string, t types.Type) smt.T {
 func (x *Exec) freshRef(st *State, base string) smt.T {
 	r := x.ctx.Fresh("ref$"+base, smt.Int)
 	st.assume(smt.Lt(smt.IntLit(0), r))
-	for _, o := range st.refs {
-		st.assume(smt.Not(smt.Eq(r, o)))
-	}
-	for _, b := range x.params {
-		switch b.typ.Underlying().(type) {
-		case *types.Pointer:
-			st.assume(smt.Not(smt.Eq(r, b.t)))
-		case *types.Slice:
-			st.assume(smt.Not(smt.Eq(r, sArr(b.t))))
-		}
-	}
+	st.assume(x.freshnessOf(st, r))
+	st.assume(smt.Not(x.notFresh(r)))
+	// everything reachable at entry was allocated before: heap contents at entry never point to a fresh object.
+	// (expressed lazily through allocBefore: refs loaded from entry-epoch heaps are not constrained; see DESIGN 2.3)
 	st.refs = append(st.refs, r)
 	return r
 }
 
-// ---------- instructions
-
-func (x *Exec) doAlloc(fr *frame, st *State, in *ssa.Alloc) {
-	et := deref(in.Type())
-	if x.isRegCell(in) {
-		st.cells[in] = x.zero(et)
-		fr.addrs[in] = addr{kind: "cell", cell: in, typ: et}
-		return
+func (x *Exec) freshnessOf(st *State, r smt.T) smt.T {
+	var fs []smt.T
+	for _, o := range st.refs {
+		fs = append(fs, smt.Not(smt.Eq(r, o)))
 	}
-	ref := x.freshRef(st, "alloc$"+in.Comment)
-	fr.regs[in] = ref
-	switch u := et.Underlying().(type) {
-	case *types.Struct:
-		for i := 0; i < u.NumFields(); i++ {
-			hn, hs := x.fieldHeap(et, i)
-			h := x.heap(st, hn, hs)
-			st.heaps[hn] = smt.Store(h, ref, x.zero(u.Field(i).Type()))
-		}
-	case *types.Array:
-		hn, hs := x.elemHeap(u.Elem())
-		_ = x.heap(st, hn, hs) // contents unconstrained except zero-ness, which we skip (over-approximation)
-	default:
-		hn, hs := x.ptrHeap(et)
-		h := x.heap(st, hn, hs)
-		st.heaps[hn] = smt.Store(h, ref, x.zero(et))
+	names := make([]string, 0, len(x.params))
+	for n := range x.params {
+		names = append(names, n)
 	}
-}
-
-// resolveAddr finds what a pointer-typed SSA value designates.
-func (x *Exec) resolveAddr(fr *frame, st *State, p ssa.Value) (addr, *frame) {
-	for f := fr; f != nil; f = f.parent {
-		if a, ok := f.addrs[p]; ok {
-			return a, f
-		}
-		if fv, ok := p.(*ssa.FreeVar); ok {
-			if pv, ok := f.freeVars[fv]; ok {
-				p = pv
-				continue
-			}
-		}
-		break
-	}
-	switch v := p.(type) {
-	case *ssa.Global:
-		et := deref(v.Type())
-		return addr{kind: "global", heap: "G$" + v.String(), typ: et}, fr
-	}
-	// generic pointer value: struct pointer or scalar pointer
-	et := deref(p.Type())
-	base := x.val(fr, st, p)
-	if _, ok := et.Underlying().(*types.Struct); ok {
-		return addr{kind: "structptr", base: base, typ: et}, fr
-	}
-	hn, _ := x.ptrHeap(et)
-	return addr{kind: "ptr", heap: hn, base: base, typ: et}, fr
-}
-
-func (x *Exec) load(fr *frame, st *State, p ssa.Value) smt.T {
-	a, _ := x.resolveAddr(fr, st, p)
-	switch a.kind {
-	case "cell":
-		if v, ok := st.cells[a.cell]; ok {
-			return v
-		}
-		v := x.freshOf(st, "cell$"+a.cell.Comment, a.typ)
-		st.cells[a.cell] = v
-		return v
-	case "field":
-		h := x.heap(st, a.heap, smt.ArraySort(smt.Int, x.sortOf(a.typ)))
-		v := smt.Select(h, a.base)
-		st.assume(x.typeFacts(v, a.typ)...)
-		return v
-	case "elem":
-		es := x.sortOf(a.typ)
-		h := x.heap(st, a.heap, smt.ArraySort(smt.Int, smt.ArraySort(smt.Int, es)))
-		v := smt.Select(smt.Select(h, a.base), a.idx)
-		st.assume(x.typeFacts(v, a.typ)...)
-		return v
-	case "ptr":
-		x.safetyRaw(st, "nil", "deref-nil", smt.Not(smt.Eq(a.base, smt.IntLit(0))))
-		h := x.heap(st, a.heap, smt.ArraySort(smt.Int, x.sortOf(a.typ)))
-		v := smt.Select(h, a.base)
-		st.assume(x.typeFacts(v, a.typ)...)
-		return v
-	case "global":
-		if isErrorType(a.typ) {
-			return x.errGlobal(strings.TrimPrefix(a.heap, "G$"))
-		}
-		return x.heap(st, a.heap, x.sortOf(a.typ))
-	case "structptr":
-		stt := a.typ.Underlying().(*types.Struct)
-		sort := x.structSort(a.typ, stt)
-		var fs []smt.T
-		for i := 0; i < stt.NumFields(); i++ {
-			hn, hs := x.fieldHeap(a.typ, i)
-			fs = append(fs, smt.Select(x.heap(st, hn, hs), a.base))
-		}
-		if len(fs) == 0 {
-			fs = append(fs, smt.IntLit(0))
-		}
-		return smt.App(sort, smt.Sym("mk$S$"+typeName(a.typ)), fs...)
-	}
-	return x.freshOf(st, "load", deref(p.Type()))
-}
-
-func isErrorType(t types.Type) bool {
-	n, ok := t.(*types.Named)
-	return ok && n.Obj().Pkg() == nil && n.Obj().Name() == "error"
-}
-
-func (x *Exec) errGlobal(name string) smt.T {
-	if t, ok := x.errGlobs[name]; ok {
-		return t
-	}
-	t := x.ctx.Const("err$"+name, smt.Int)
-	x.errGlobs[name] = t
-	return t
-}
-
-func (x *Exec) doStore(fr *frame, st *State, in *ssa.Store) {
-	v := x.val(fr, st, in.Val)
-	a, _ := x.resolveAddr(fr, st, in.Addr)
-	switch a.kind {
-	case "cell":
-		st.cells[a.cell] = v
-	case "field":
-		h := x.heap(st, a.heap, smt.ArraySort(smt.Int, x.sortOf(a.typ)))
-		st.heaps[a.heap] = smt.Store(h, a.base, v)
-	case "elem":
-		es := x.sortOf(a.typ)
-		h := x.heap(st, a.heap, smt.ArraySort(smt.Int, smt.ArraySort(smt.Int, es)))
-		st.heaps[a.heap] = smt.Store(h, a.base, smt.Store(smt.Select(h, a.base), a.idx, v))
-	case "ptr":
-		x.safetyRaw(st, "nil", "store-nil", smt.Not(smt.Eq(a.base, smt.IntLit(0))))
-		h := x.heap(st, a.heap, smt.ArraySort(smt.Int, x.sortOf(a.typ)))
-		st.heaps[a.heap] = smt.Store(h, a.base, v)
-	case "global":
-		st.heaps[a.heap] = v
-		x.heapSort[a.heap] = x.sortOf(a.typ)
-	case "structptr":
-		stt := a.typ.Underlying().(*types.Struct)
-		name := "S$" + typeName(a.typ)
-		x.structSort(a.typ, stt)
-		for i := 0; i < stt.NumFields(); i++ {
-			hn, hs := x.fieldHeap(a.typ, i)
-			h := x.heap(st, hn, hs)
-			fv := smt.App(x.sortOf(stt.Field(i).Type()), smt.Sym(fmt.Sprintf("%s.%d", name, i)), v)
-			st.heaps[hn] = smt.Store(h, a.base, fv)
+	sort.Strings(names)
+	for _, n := range names {
+		b := x.params[n]
+		switch b.typ.Underlying().(type) {
+		case *types.Pointer, *types.Interface, *types.Map, *types.Chan, *types.Signature:
+			fs = append(fs, smt.Not(smt.Eq(r, b.t)))
+		case *types.Slice:
+			fs = append(fs, smt.Not(smt.Eq(r, sArr(b.t))))
 		}
 	}
-}
-
-func (x *Exec) doUnOp(fr *frame, st *State, in *ssa.UnOp) {
-	switch in.Op {
-	case token.MUL:
-		fr.regs[in] = x.load(fr, st, in.X)
-		// remember closures loaded from cells? not needed
-	case token.NOT:
-		fr.regs[in] = smt.Not(x.val(fr, st, in.X))
-	case token.SUB:
-		fr.regs[in] = smt.App(smt.Int, "-", x.val(fr, st, in.X))
-	case token.ARROW:
-		if tu, ok := in.Type().(*types.Tuple); ok {
-			var ts []smt.T
-			for k := 0; k < tu.Len(); k++ {
-				ts = append(ts, x.freshOf(st, "recv", tu.At(k).Type()))
-			}
-			fr.tuples[in] = ts
-		} else {
-			fr.regs[in] = x.freshOf(st, "recv", in.Type())
-		}
-	case token.XOR:
-		f := x.ctx.Fun("bvnot$", []string{smt.Int}, smt.Int)
-		fr.regs[in] = smt.App(smt.Int, f, x.val(fr, st, in.X))
-	default:
-		fr.regs[in] = x.freshOf(st, "unop", in.Type())
-	}
-}
-
-func pow2(k int64) string {
-	v := constant.Shift(constant.MakeInt64(1), token.SHL, uint(k))
-	return v.ExactString()
-}
-
-func (x *Exec) doBinOp(fr *frame, st *State, in *ssa.BinOp) {
-	a, b := x.val(fr, st, in.X), x.val(fr, st, in.Y)
-	t := in.X.Type()
-	var r smt.T
-	switch in.Op {
-	case token.ADD:
-		if isInteger(t) {
-			r = smt.Add(a, b)
-			x.overflowCheck(st, r, in.Type(), in)
-		} else {
-			r = smt.App(x.sortOf(in.Type()), x.ctx.Fun("concat$", []string{x.sortOf(t), x.sortOf(t)}, x.sortOf(t)), a, b)
-		}
-	case token.SUB:
-		r = smt.Sub(a, b)
-		if isUnsigned(t) {
-			x.safety(st, "overflow", "unsigned-sub-underflow", smt.Le(b, a), in)
-		} else {
-			x.overflowCheck(st, r, in.Type(), in)
-		}
-	case token.MUL:
-		r = smt.Mul(a, b)
-		x.overflowCheck(st, r, in.Type(), in)
-	case token.QUO:
-		x.safety(st, "nopanic", "div-by-zero", smt.Not(smt.Eq(b, smt.IntLit(0))), in)
-		r = smt.App(smt.Int, "div", a, b)
-	case token.REM:
-		x.safety(st, "nopanic", "mod-by-zero", smt.Not(smt.Eq(b, smt.IntLit(0))), in)
-		r = smt.App(smt.Int, "mod", a, b)
-	case token.SHL, token.SHR:
-		if c, ok := in.Y.(*ssa.Const); ok && c.Value != nil {
-			k, _ := constant.Int64Val(constant.ToInt(c.Value))
-			if in.Op == token.SHL {
-				r = smt.Mul(a, smt.IntLitS(pow2(k)))
-				x.overflowCheck(st, r, in.Type(), in)
-			} else {
-				r = smt.App(smt.Int, "div", a, smt.IntLitS(pow2(k)))
-			}
-		} else {
-			f := x.ctx.Fun("shift$"+in.Op.String(), []string{smt.Int, smt.Int}, smt.Int)
-			r = smt.App(smt.Int, f, a, b)
-		}
-	case token.AND, token.OR, token.XOR, token.AND_NOT:
-		if x.sortOf(t) == smt.Bool {
-			r = map[token.Token]smt.T{token.AND: smt.And(a, b), token.OR: smt.Or(a, b)}[in.Op]
-		} else {
-			f := x.ctx.Fun("bv$"+map[token.Token]string{token.AND: "and", token.OR: "or", token.XOR: "xor", token.AND_NOT: "andnot"}[in.Op], []string{smt.Int, smt.Int}, smt.Int)
-			r = smt.App(smt.Int, f, a, b)
-			st.assume(x.typeFacts(r, in.Type())...)
-		}
-	case token.EQL:
-		r = x.equal(a, b, t)
-	case token.NEQ:
-		r = smt.Not(x.equal(a, b, t))
-	case token.LSS:
-		r = x.less(a, b, t, "<")
-	case token.LEQ:
-		r = x.less(a, b, t, "<=")
-	case token.GTR:
-		r = x.less(b, a, t, "<")
-	case token.GEQ:
-		r = x.less(b, a, t, "<=")
-	default:
-		r = x.freshOf(st, "binop", in.Type())
-	}
-	fr.regs[in] = r
-}
-
-func (x *Exec) equal(a, b smt.T, t types.Type) smt.T {
-	if _, ok := t.Underlying().(*types.Slice); ok { // only comparison with nil is legal
-		if a.S == "(mkslice 0 0 0 0)" {
-			return smt.Eq(sArr(b), smt.IntLit(0))
-		}
-		if b.S == "(mkslice 0 0 0 0)" {
-			return smt.Eq(sArr(a), smt.IntLit(0))
-		}
-	}
-	return smt.Eq(a, b)
-}
-
-func (x *Exec) less(a, b smt.T, t types.Type, op string) smt.T {
-	if isInteger(t) {
-		return smt.App(smt.Bool, op, a, b)
-	}
-	s := x.sortOf(t)
-	f := x.ctx.Fun("lt$"+s, []string{s, s}, smt.Bool)
-	if op == "<" {
-		return smt.App(smt.Bool, f, a, b)
-	}
-	return smt.Not(smt.App(smt.Bool, f, b, a))
-}
-
-func (x *Exec) overflowCheck(st *State, r smt.T, t types.Type, in ssa.Instruction) {
-	b, ok := t.Underlying().(*types.Basic)
-	if !ok {
-		return
-	}
-	lo, hi := intRange(b)
-	if lo == "" {
-		return
-	}
-	x.safety(st, "overflow", "arith-in-range", smt.And(smt.Le(smt.IntLitS(lo), r), smt.Le(r, smt.IntLitS(hi))), in)
-}
-
-func (x *Exec) doIndexAddr(fr *frame, st *State, in *ssa.IndexAddr) {
-	idx := x.val(fr, st, in.Index)
-	switch t := in.X.Type().Underlying().(type) {
-	case *types.Slice:
-		s := x.val(fr, st, in.X)
-		hn, _ := x.elemHeap(t.Elem())
-		x.safety(st, "nopanic", "index-in-bounds", smt.And(smt.Le(smt.IntLit(0), idx), smt.Lt(idx, sLen(s))), in)
-		fr.addrs[in] = addr{kind: "elem", heap: hn, base: sArr(s), idx: smt.Add(sOff(s), idx), typ: t.Elem()}
-	case *types.Pointer: // pointer to array
-		arr := t.Elem().Underlying().(*types.Array)
-		base := x.val(fr, st, in.X)
-		hn, _ := x.elemHeap(arr.Elem())
-		x.safety(st, "nopanic", "index-in-bounds", smt.And(smt.Le(smt.IntLit(0), idx), smt.Lt(idx, smt.IntLit(arr.Len()))), in)
-		fr.addrs[in] = addr{kind: "elem", heap: hn, base: base, idx: idx, typ: arr.Elem()}
-	}
-}
-
-func (x *Exec) doSlice(fr *frame, st *State, in *ssa.Slice) {
-	var lo, hi, mx smt.T
-	has := func(v ssa.Value) bool { return v != nil }
-	if has(in.Low) {
-		lo = x.val(fr, st, in.Low)
-	} else {
-		lo = smt.IntLit(0)
-	}
-	switch t := in.X.Type().Underlying().(type) {
-	case *types.Slice:
-		s := x.val(fr, st, in.X)
-		if has(in.High) {
-			hi = x.val(fr, st, in.High)
-		} else {
-			hi = sLen(s)
-		}
-		if has(in.Max) {
-			mx = x.val(fr, st, in.Max)
-		} else {
-			mx = sCap(s)
-		}
-		x.safety(st, "nopanic", "slice-bounds", smt.And(smt.Le(smt.IntLit(0), lo), smt.Le(lo, hi), smt.Le(hi, mx), smt.Le(mx, sCap(s))), in)
-		fr.regs[in] = mkSlice(sArr(s), smt.Add(sOff(s), lo), smt.Sub(hi, lo), smt.Sub(mx, lo))
-	case *types.Pointer: // *[N]T
-		arr := t.Elem().Underlying().(*types.Array)
-		base := x.val(fr, st, in.X)
-		n := smt.IntLit(arr.Len())
-		if has(in.High) {
-			hi = x.val(fr, st, in.High)
-		} else {
-			hi = n
-		}
-		x.declSlice()
-		fr.regs[in] = mkSlice(base, lo, smt.Sub(hi, lo), smt.Sub(n, lo))
-	case *types.Basic: // string slicing
-		fr.regs[in] = x.freshOf(st, "substr", in.Type())
-	}
-}
-
-func (x *Exec) doMakeInterface(fr *frame, st *State, in *ssa.MakeInterface) {
-	xt := in.X.Type()
-	v := x.val(fr, st, in.X)
-	switch xt.Underlying().(type) {
-	case *types.Pointer, *types.Signature, *types.Map, *types.Chan:
-		fr.regs[in] = v // same identity
-	case *types.Interface:
-		fr.regs[in] = v
-	default:
-		// boxed value: fresh non-nil identity with a box function remembering the payload
-		id := x.freshRef(st, "box")
-		s := x.sortOf(xt)
-		f := x.ctx.Fun("unbox$"+typeName(xt), []string{smt.Int}, s)
-		st.assume(smt.Eq(smt.App(s, f, id), v))
-		fr.regs[in] = id
-	}
-}
-
-func (x *Exec) doConvert(fr *frame, st *State, in *ssa.Convert) {
-	v := x.val(fr, st, in.X)
-	from, to := in.X.Type(), in.Type()
-	switch {
-	case isInteger(from) && isInteger(to):
-		fr.regs[in] = v
-		if b, ok := to.Underlying().(*types.Basic); ok {
-			lo, hi := intRange(b)
-			if lo != "" {
-				x.safety(st, "overflow", "conversion-in-range", smt.And(smt.Le(smt.IntLitS(lo), v), smt.Le(v, smt.IntLitS(hi))), in)
-			}
-		}
-	default:
-		sf, stt := x.sortOf(from), x.sortOf(to)
-		if sf == stt {
-			fr.regs[in] = v
-			return
-		}
-		f := x.ctx.Fun("conv$"+typeName(from)+"$"+typeName(to), []string{sf}, stt)
-		r := smt.App(stt, f, v)
-		st.assume(x.typeFacts(r, to)...)
-		fr.regs[in] = r
-	}
+	return smt.And(fs...)
 }
 
 // ---------- safety obligations
 
-func (x *Exec) safety(st *State, kind, name string, goal smt.T, in ssa.Instruction) {
-	if !x.opts.Safety || goal.S == "true" {
-		return
+func (x *Exec) posOf(in ssa.Instruction) string {
+	p := in.Pos()
+	if !p.IsValid() {
+		if v, ok := in.(ssa.Value); ok {
+			if rs := v.Referrers(); rs != nil {
+				for _, r := range *rs {
+					if r.Pos().IsValid() {
+						p = r.Pos()
+						break
+					}
+				}
+			}
+		}
 	}
-	pos := x.P.Prog.Fset.Position(in.Pos())
-	x.emit(&Obligation{Kind: kind, Name: fmt.Sprintf("%s@%s:%d|%s", name, shortFile(pos.Filename), pos.Line, pathSig(st.trace)), Facts: st.facts, Goal: goal,
-		Source: fmt.Sprintf("%s at %s:%d", name, shortFile(pos.Filename), pos.Line)})
-	st.assume(goal)
+	pos := x.P.Prog.Fset.Position(p)
+	return fmt.Sprintf("%s:%d", shortFile(pos.Filename), pos.Line)
 }
 
-func (x *Exec) safetyRaw(st *State, kind, name string, goal smt.T) {
-	if !x.opts.Safety {
+func (x *Exec) safety(st *State, kind, name string, goal smt.T, in ssa.Instruction) {
+	if goal.S == "true" {
 		return
 	}
-	x.emit(&Obligation{Kind: kind, Name: name + "|" + pathSig(st.trace), Facts: st.facts, Goal: goal, Source: name})
+	if !x.safetyOn {
+		return
+	}
+	text := ""
+	if in != nil && in.Pos().IsValid() {
+		text = x.P.ExprTextAt(in.Pos())
+	}
+	label := name
+	if text != "" {
+		label = name + "@" + text
+	}
+	o := &Obligation{Kind: kind, Label: label, Facts: st.facts, Goal: goal, Source: fmt.Sprintf("%s at %s", name, text)}
+	if in != nil {
+		o.Pos = x.posOf(in)
+	}
+	x.emit(o, st)
 	st.assume(goal)
 }
 
@@ -1125,7 +1185,7 @@ func (x *Exec) runDefers(fr *frame, st *State, b *ssa.BasicBlock, i int, pred *s
 	// pop the last deferred call, execute it, then re-enter at the same RunDefers instruction
 	d := st.defers[len(st.defers)-1]
 	st.defers = st.defers[:len(st.defers)-1]
-	outs := x.doCall(fr, st, nil, &d.call.Call, d.args, depth)
+	outs := x.doCall(fr, st, d.call, &d.call.Call, d.args, depth)
 	var res []outcome
 	for _, o := range outs {
 		if o.panicked {
@@ -1137,4 +1197,56 @@ func (x *Exec) runDefers(fr *frame, st *State, b *ssa.BasicBlock, i int, pred *s
 	return res
 }
 
-var _ = sort.Strings
+// watchParam registers model queries for a parameter (used to build replay inputs).
+func (x *Exec) watchParam(name string, v smt.T, t types.Type) {
+	switch u := t.Underlying().(type) {
+	case *types.Basic:
+		if u.Info()&(types.IsInteger|types.IsBoolean) != 0 {
+			x.watch = append(x.watch, WatchTerm{name, v})
+		}
+	case *types.Slice:
+		x.watch = append(x.watch, WatchTerm{"len(" + name + ")", sLen(v)}, WatchTerm{"isnil(" + name + ")", smt.Eq(sArr(v), smt.IntLit(0))})
+		if b, ok := u.Elem().Underlying().(*types.Basic); ok && b.Info()&(types.IsInteger|types.IsBoolean) != 0 {
+			hn, hs := x.elemHeap(u.Elem())
+			h := x.ctx.Const(fmt.Sprintf("%s@0", hn), hs)
+			for i := 0; i < 12; i++ {
+				x.watch = append(x.watch, WatchTerm{fmt.Sprintf("%s[%d]", name, i), smt.Select(smt.Select(h, sArr(v)), smt.Add(sOff(v), smt.IntLit(int64(i))))})
+			}
+		}
+	case *types.Pointer, *types.Interface:
+		x.watch = append(x.watch, WatchTerm{name + "==nil", smt.Eq(v, smt.IntLit(0))})
+	}
+}
+
+// entryHeapAxiom: what the heap held when the function was entered was allocated before: no fresh references.
+func (x *Exec) entryHeapAxiom(name, sort string, h smt.T) {
+	if _, ok := x.axioms["nofresh:"+name]; ok {
+		return
+	}
+	x.ctx.Fun("fresh$", []string{smt.Int}, smt.Bool)
+	idx := indexSortOf(sort)
+	el := elemSortOf(sort)
+	switch {
+	case strings.HasPrefix(name, "GH$") || strings.HasPrefix(name, "G$"):
+		return
+	case el == smt.Int && (strings.Contains(name, "*") || x.heapHoldsRefs[name]):
+		x.axioms["nofresh:"+name] = "(assert (forall ((r!a " + idx + ")) (! (not (fresh$ (select " + h.S + " r!a))) :pattern ((select " + h.S + " r!a)))))"
+	case el == SliceSort:
+		x.axioms["nofresh:"+name] = "(assert (forall ((r!a " + idx + ")) (! (not (fresh$ (s.arr (select " + h.S + " r!a)))) :pattern ((select " + h.S + " r!a)))))"
+	case strings.HasPrefix(el, "(Array Int ") && strings.HasPrefix(name, "E$") && (elemSortOf(el) == smt.Int && x.heapHoldsRefs[name]):
+		x.axioms["nofresh:"+name] = "(assert (forall ((r!a Int) (i!a Int)) (! (not (fresh$ (select (select " + h.S + " r!a) i!a))) :pattern ((select (select " + h.S + " r!a) i!a)))))"
+	}
+}
+
+func (x *Exec) structNotFresh(st *State, t types.Type, v smt.T) {
+	u := t.Underlying().(*types.Struct)
+	for i := 0; i < u.NumFields(); i++ {
+		ft := u.Field(i).Type()
+		switch ft.Underlying().(type) {
+		case *types.Pointer, *types.Interface, *types.Map, *types.Chan, *types.Signature:
+			st.assume(x.notFresh(x.structField(t, u, i, v)))
+		case *types.Slice:
+			st.assume(x.notFresh(sArr(x.structField(t, u, i, v))))
+		}
+	}
+}
